@@ -31,6 +31,7 @@ func outcome(tr Trace) string {
 
 var feedsKeys = regexp.MustCompile("[\\x1b\\x18][A-Z]|\\x18e")
 var feedsKeysVi = regexp.MustCompile("@")
+var visualTildeEsc = regexp.MustCompile("v[^\\x1b]*~\\x1b[^\\[O]")
 
 func init() {
 	build := func(c *Case) {
@@ -146,6 +147,11 @@ func init() {
 				// tagged as one known finding.
 				if tag == "" && (feedsKeys.MatchString(unhex(c.Keys)) || (c.Specs[0].Mode == "vi" && feedsKeysVi.MatchString(unhex(c.Keys)))) {
 					tag = "/fed-keys-with-type-ahead"
+				}
+				// Vim visual mode: vi-change-case (~) followed IN THE SAME READ by an ESC-prefixed key: whether a redisplay
+				// ran between the two decides in which keymap the ESC is dispatched (one known finding)
+				if tag == "" && c.Specs[0].Mode == "vi" && visualTildeEsc.MatchString(unhex(c.Keys)) {
+					tag = "/visual-change-case-then-esc-key"
 				}
 				return []Finding{{"C05", kind + "/" + c.Specs[0].Mode + "/" + c.Meta["how"] + tag,
 					fmt.Sprintf("key-per-read: %s\n%s: %s", a, c.Meta["how"], b), c}}
